@@ -50,6 +50,14 @@ def gen_case(rnd, tier, index):
     ops = c01.gen_ops(rnd, spec, cfg, n_ops,
                       restart_rate=rnd.choice((0, 0.05, 0.1)),
                       set_rate=rnd.choice((0.15, 0.3)))
+    if cfg.get('origin') in ('nodata', 'xlsx') and rnd.random() < 0.15:
+        # fault: a graph build that fails half way (a reference that cannot be resolved); the
+        # model is used on, every other formula still has to be wired to what it reads
+        q = wbgen.add_poison_gadget(rnd, spec)
+        if q:
+            ops = [o for o in ops if o['op'] != 'restart']
+            for _ in range(rnd.choice((1, 1, 2))):
+                ops.insert(rnd.randint(0, max(0, len(ops) // 2)), {'op': 'poke', 'a': q})
     return history.legalise({'spec': spec, 'cfg': cfg, 'ops': ops})
 
 
